@@ -32,6 +32,7 @@ var LibraryPackages = []string{
 
 // Program is the loaded, type-checked program.
 type Program struct {
+	refs   map[*ssa.Function][]*ssa.Function
 	Mod    string
 	UseCHA bool
 	Dir    string
@@ -144,6 +145,9 @@ func Load(opt Options) (*Program, error) {
 		paths.Inlineable = func(g *ssa.Function) bool {
 			if g == nil || !p.inMod[g] || g.Synthetic != "" || g.Parent() != nil || g.Origin() != nil || len(g.Blocks) == 0 {
 				return false
+			}
+			if paths.TrivialWrapper(g) {
+				return true // forwards to one call: callers see the wrapped call
 			}
 			if g.Object() != nil && g.Object().Exported() {
 				return false
@@ -431,7 +435,16 @@ func sigKey(f *ssa.Function) string {
 	if r := f.Signature.Recv(); r != nil {
 		recv = r.Type().String()
 	}
-	return recv + "|" + types.TypeString(types.NewSignatureType(nil, nil, nil, f.Signature.Params(), f.Signature.Results(), f.Signature.Variadic()), nil)
+	return recv + "|" + types.TypeString(types.NewSignatureType(nil, nil, nil, unnamed(f.Signature.Params()), unnamed(f.Signature.Results()), f.Signature.Variadic()), nil)
+}
+
+// unnamed drops the parameter / result names of a tuple (a rename of a parameter is not a new signature).
+func unnamed(t *types.Tuple) *types.Tuple {
+	vs := make([]*types.Var, t.Len())
+	for i := range vs {
+		vs[i] = types.NewVar(0, nil, "", t.At(i).Type())
+	}
+	return types.NewTuple(vs...)
 }
 
 // resolveRenames binds frozen anchor names that no longer exist to the unique function of the same
@@ -498,4 +511,100 @@ func GenAnchors(p *Program) string {
 	}
 	sb.WriteString("}\n")
 	return sb.String()
+}
+
+// IsNewHelper tells whether f is an unexported top-level function that did not exist (under any
+// name: renames are resolved first) on the tree the rules and audited tables were confirmed on.
+func (p *Program) IsNewHelper(f *ssa.Function) bool {
+	if f == nil || !p.inMod[f] || f.Synthetic != "" || f.Parent() != nil || f.Origin() != nil || len(f.Blocks) == 0 {
+		return false
+	}
+	if f.Object() == nil || f.Object().Exported() {
+		return false
+	}
+	_, frozen := FrozenAnchors[paths.FuncName(f)]
+	return !frozen
+}
+
+// Owners gives the confirmed functions an inventory entry of f is attributed to: closures belong to
+// their top-level function; a new helper belongs to the confirmed functions it is (transitively)
+// called from, so that moving code into a helper does not change any per-function inventory.
+func (p *Program) Owners(f *ssa.Function) []*ssa.Function { return p.owners(f, true) }
+
+// PathOwners gives the functions on whose enumerated paths the instructions of f appear: f itself,
+// unless it is a new helper, which is spliced into the paths of its (transitive) confirmed callers.
+func (p *Program) PathOwners(f *ssa.Function) []*ssa.Function { return p.owners(f, false) }
+
+func (p *Program) owners(f *ssa.Function, lift bool) []*ssa.Function {
+	seen := map[*ssa.Function]bool{}
+	out := map[*ssa.Function]bool{}
+	var visit func(g *ssa.Function)
+	visit = func(g *ssa.Function) {
+		for lift && g.Parent() != nil {
+			g = g.Parent()
+		}
+		if seen[g] {
+			return
+		}
+		seen[g] = true
+		wrapper := g.Synthetic != "" && (strings.HasPrefix(g.Synthetic, "bound method") || strings.HasPrefix(g.Synthetic, "thunk") || strings.HasPrefix(g.Synthetic, "wrapper"))
+		if !wrapper && (!p.IsNewHelper(g) || paths.Inlineable == nil || !lift && !paths.Inlineable(g)) {
+			out[g] = true
+			return
+		}
+		n := 0
+		for _, e := range p.CallersOf(g) {
+			if e.Caller.Func != nil && p.inMod[e.Caller.Func] && p.IsLibrary(e.Caller.Func) && e.Site != nil && e.Site.Common().StaticCallee() == g {
+				visit(e.Caller.Func)
+				n++
+			}
+		}
+		// functions that take g as a value (method values, callbacks handed to library code)
+		for _, r := range p.valueRefs()[g] {
+			visit(r)
+			n++
+		}
+		if n == 0 {
+			out[g] = true
+		}
+	}
+	visit(f)
+	var fs []*ssa.Function
+	for g := range out {
+		fs = append(fs, g)
+	}
+	sort.Slice(fs, func(i, j int) bool { return ShortName(fs[i]) < ShortName(fs[j]) })
+	return fs
+}
+
+// valueRefs maps a function to the library functions that use it as a value (not in call position).
+func (p *Program) valueRefs() map[*ssa.Function][]*ssa.Function {
+	if p.refs != nil {
+		return p.refs
+	}
+	p.refs = map[*ssa.Function][]*ssa.Function{}
+	for f := range p.inMod {
+		if !p.IsLibrary(f) {
+			continue
+		}
+		seen := map[*ssa.Function]bool{}
+		for _, b := range f.Blocks {
+			for _, in := range b.Instrs {
+				var callee ssa.Value
+				if c, ok := in.(ssa.CallInstruction); ok && !c.Common().IsInvoke() {
+					callee = c.Common().Value
+				}
+				for _, op := range in.Operands(nil) {
+					if *op == nil || *op == callee {
+						continue
+					}
+					if g, ok := (*op).(*ssa.Function); ok && !seen[g] && g != f {
+						seen[g] = true
+						p.refs[g] = append(p.refs[g], f)
+					}
+				}
+			}
+		}
+	}
+	return p.refs
 }
